@@ -124,6 +124,16 @@ fn first_difference(a: &Value, b: &Value) -> String {
     }
 }
 
+pub fn probe_ops_case() -> BoxedStrategy<ProbeCase> {
+    (program(6, 40, true), any::<u8>())
+        .prop_map(|(prog, goal_var)| ProbeCase::Ops { prog, goal_var })
+        .boxed()
+}
+
+pub fn c12_check_entry(c: &ProbeCase, st: &mut Stats) -> CheckResult {
+    c12_check(c, st)
+}
+
 fn probe_case() -> BoxedStrategy<ProbeCase> {
     let ops = (program(5, 30, true), any::<u8>()).prop_map(|(prog, goal_var)| ProbeCase::Ops { prog, goal_var });
     let adf = (
